@@ -22,6 +22,15 @@ CHECKS = {
  "C06": ("E1 structure explorer", "exhaustive product of per-component phase configurations over enumerated trees on the real solver; per-phase law oracle + single-phase and phase-free projection differentials",
          "Every assignment of {none, every subset of phases} to every component of every enumerated tree is solved; each phase is checked against the statement's phase behaviour and against an equivalent phase-free system built through the public API.",
          "trees n<=2 (mid alphabet) / n=3 (deep alphabet) in quick; one palette per run", "3"),
+ "C07": ("E1 structure explorer", "exhaustive enumeration of multi-source structures x ALL construction orders (linear extensions) x source patterns x phases x energy on the real solver; aggregates recomputed from component rows",
+         "Every construction order of every enumerated multi-source structure (with and without PMux) is built and solved; domain attribution, Subsystem/total/average/energy rows are recomputed from the rows, and all orders must agree.",
+         "small alphabet, <=6 non-source nodes; one palette per run", "3"),
+ "C08": ("E1 structure explorer", "exhaustive enumeration of trees x every rail-assignment subset x attachment form x phases, and all PMux input tuples with rails, on the real code; rail_rep() recomputed from solve()",
+         "For every enumerated tree all 2^k assignments of rails to non-load components are built; the rail report is recomputed from the solve() table of the same system.",
+         "rail Efficiency column unconstrained; one palette per run", "3"),
+ "C09": ("E1 structure explorer", "exhaustive product component x limit key x boundary placement x sign form over enumerated trees on the real solver; warning token sets recomputed from reported values and the applicability table",
+         "Each limit key, applicable or not, is placed inside / exactly on / just outside the reported quantity of each component of each tree, so every comparison operator and every applicability entry is exercised at its boundary.",
+         "values taken from a first solve() of the same system; magnitude comparison on limits; one palette per run", "3"),
 }
 NOT_YET = {}
 ALL = ["C%02d" % i for i in range(1, 21)]
